@@ -7,18 +7,22 @@ from .wblock import run_assemble
 from .c16 import FakeMatch
 
 
-def make_ref(st, title, authors=None):
+def make_ref(st, title, authors=None, span=None):
     r = st.Reference()
     r.title = title
     r.authors = ("A. " + title) if authors is None else authors
     r.journal = "J. " + r.authors
+    if span is not None:
+        # the stretch of the SOURCE record the reference is about (GenBank: "REFERENCE 1 (bases 1 to N)")
+        r.location = [st.SimpleLocation(0, span)]
     return r
 
 
 def snap_value(v):
     tn = type(v).__name__
     if tn == "Reference":
-        return ("ref", v.title, v.authors, getattr(v, "journal", ""), getattr(v, "pubmed_id", ""))
+        return ("ref", v.title, v.authors, getattr(v, "journal", ""), getattr(v, "pubmed_id", ""),
+                [snap_location(l) for l in getattr(v, "location", [])])
     if isinstance(v, (list, tuple)):
         return [snap_value(x) for x in v]
     if isinstance(v, dict):
